@@ -46,7 +46,7 @@ def known(f):
 
 def run(ctx):
     generic.run(ctx, "C12", ["avail1", "term1", "avail2", "term2", "live"],
-                dict(conforming=40, flow=100, random=60, injected=30, stack=40, loopfn=60), oracle=oracle, known=known, what="dataflow passes")
+                dict(conforming=40, flow=100, random=60, injected=30, stack=40, loopfn=60, loopslot=30), oracle=oracle, known=known, what="dataflow passes")
 
 
 replay = generic.replay
